@@ -29,7 +29,7 @@ def prefixes(tier):
     return ps + (two if tier == "thorough" else two[::3]) + three
 
 
-def build_gateway(in_levels, out_levels, raising=False, persistence_file=None, flavour="sync"):
+def build_gateway(in_levels, out_levels, raising=False, persistence_file=None, flavour="sync", retained=(), retained_at=0):
     from mysensors import gateway_mqtt
     pubs, subs, handed = [], [], []
     # what broker clients raise: with a message, without any argument, with several, not a RuntimeError at all
@@ -50,6 +50,13 @@ def build_gateway(in_levels, out_levels, raising=False, persistence_file=None, f
         if ctl["failing"]:
             boom()                      # the broker client is not connected yet: this subscription does not exist
         subs.append((topic, qos))
+        ctl["nsub"] = ctl.get("nsub", 0) + 1
+        if retained and ctl["nsub"] > retained_at and not ctl.get("replayed"):
+            # the broker replays retained messages once the presentation topic is subscribed; a client that services the
+            # network inside subscribe() hands them over from inside one of the following callbacks
+            ctl["replayed"] = True
+            for rtopic, rpayload in retained:
+                callback("/".join(in_levels) + rtopic, rpayload, 0)
         if raising is True:
             boom()
     build_gateway.ctl = ctl
@@ -149,16 +156,19 @@ def run(tier):
     n_hist = 60 if tier == "quick" else 600
     for i in range(n_hist):
         inp = rng.choice(pref)
-        raising = True if i % 4 == 0 else "start" if i % 4 == 2 else False
-        flavour = "sync" if i % 3 else "async"
-        pfile = os.path.join(wd, f"mq{i}.json") if i % 2 == 0 else None
+        # (drawn independently: the combinations matter - e.g. a restored file with callbacks that work)
+        raising = rng.choice([False, False, False, True, "start"])
+        flavour = rng.choice(["sync", "sync", "async"])
+        pfile = os.path.join(wd, f"mq{i}.json") if rng.random() < 0.5 else None
+        retained = [(f"/{rng.choice([3, 9, 200])}/255/0/0/17", "2.2")] if rng.random() < 0.4 else []
         if pfile:
             # a previous life leaves a persistence file with presented children
             g0, _, _, _ = build_gateway(inp, inp, persistence_file=pfile)
             for ln in _pres_lines(rng):
                 g0.logic(ln)
             g0.tasks.persistence.save_sensors()
-        gw, pubs, subs, _ = build_gateway(inp, inp, raising=raising, persistence_file=pfile, flavour=flavour)
+        gw, pubs, subs, _ = build_gateway(inp, inp, raising=raising, persistence_file=pfile, flavour=flavour, retained=retained,
+                                           retained_at=rng.randint(0, 6))
         ctl = build_gateway.ctl
         pump_dead = 0
         if not pfile and i % 5 in (1, 3):
